@@ -653,7 +653,7 @@ fn count_faults(case: &Case, out: &RunOut, f: &mut [u32; N_FAULT_KINDS]) {
                         }
                     }
                     FaultKind::Drop(_) => f[5] += 1,
-                    FaultKind::AddForeign => f[6] += 1,
+                    FaultKind::AddForeign | FaultKind::InsertForeign(_) => f[6] += 1,
                     FaultKind::Dup(_) => f[7] += 1,
                     FaultKind::Swap(..) => f[8] += 1,
                     FaultKind::SubstName(_) | FaultKind::SubstBits(_) | FaultKind::SubstKind(_) => {
@@ -1332,6 +1332,68 @@ fn c13_judge(base_out: &RunOut, faulted: &Case, fault: &Fault, ev: &mut Eval) ->
     None
 }
 
+/// the driver's first answer contains entries that later answers lack
+fn c13_first_answer(faulted: &Case, fault: &Fault, ev: &mut Eval) -> Option<Violation> {
+    let out = run_case(faulted);
+    ev.runs += 1;
+    ev.ticks += out.ticks;
+    if let Some(h) = harness_panic(&out) {
+        ev.harness_error = Some(h);
+        return None;
+    }
+    if out.load != Load::Ok {
+        return None;
+    }
+    count_faults(faulted, &out, &mut ev.faults);
+    ev.extra_nontrivial += 1;
+    let it = &out.iters[0];
+    if let Some(Ctor::Panic(p)) = &it.ctor {
+        return Some(Violation {
+            oracle: "C13.panic",
+            detail: format!("first answer with {:?}: constructor: {}", fault.kind, p.show()),
+        });
+    }
+    let ModelAnswer::Ok(first) = &it.calls.first()?.answer else {
+        return None;
+    };
+    for (j, s) in it.steps.iter().enumerate() {
+        if let Item::Panic(p) = &s.item {
+            return Some(Violation {
+                oracle: "C13.panic",
+                detail: format!(
+                    "the driver's first answer had {} entries ({:?}); at step {j}: {}",
+                    first.len(),
+                    fault.kind,
+                    p.show()
+                ),
+            });
+        }
+        if s.calls.1 != s.calls.0 + 1 {
+            continue;
+        }
+        let c = &it.calls[s.calls.0];
+        let ModelAnswer::Ok(now) = &c.answer else { continue };
+        if c.write_only || now.len() == first.len() {
+            continue;
+        }
+        // an output-reading call (the driver overrides write_input, so it is one made for a
+        // checked row) answered with a different number of outputs than the first answer
+        if !matches!(s.item, Item::RuntimeErr(_)) {
+            return Some(Violation {
+                oracle: "C13.deviation",
+                detail: format!(
+                    "the driver's first answer had {} entries ({:?}), the answer to the call of                      step {j} has {}; next() returned {} instead of an error",
+                    first.len(),
+                    fault.kind,
+                    now.len(),
+                    oracle::brief_item(&s.item)
+                ),
+            });
+        }
+    }
+    None
+}
+
 fn eval_c13(case: &Case) -> Eval {
     let mut ev = Eval::new();
     let explicit: Vec<Fault> = case.duts[0]
@@ -1384,7 +1446,15 @@ fn eval_c13(case: &Case) -> Eval {
                 });
             };
             push(FaultKind::Error);
-            if k == 0 || base.calls[k].write_only {
+            if k == 0 {
+                push(FaultKind::AddForeign);
+                for p in 0..lay.min(4) {
+                    push(FaultKind::InsertForeign(p));
+                    push(FaultKind::Dup(p));
+                }
+                continue;
+            }
+            if base.calls[k].write_only {
                 continue;
             }
             push(FaultKind::AddForeign);
@@ -1404,6 +1474,40 @@ fn eval_c13(case: &Case) -> Eval {
                     push(FaultKind::Swap(p, q));
                 }
             }
+        }
+    }
+    // deviations in the driver's FIRST answer (foreign or duplicated entries): every later
+    // answer then differs from it in number, so every checked row must be an error item.
+    // Judged with an overriding driver only (there the device sees which calls read).
+    let first_plans: Vec<Fault> = plans
+        .iter()
+        .filter(|f| {
+            f.at_call == 0
+                && matches!(
+                    f.kind,
+                    FaultKind::AddForeign | FaultKind::InsertForeign(_) | FaultKind::Dup(_)
+                )
+        })
+        .cloned()
+        .collect();
+    plans.retain(|f| {
+        !(f.at_call == 0
+            && matches!(
+                f.kind,
+                FaultKind::AddForeign | FaultKind::InsertForeign(_) | FaultKind::Dup(_)
+            ))
+    });
+    for f in first_plans {
+        let mut faulted = with_fault(&base_case, 0, f.kind.clone(), f.id);
+        faulted.duts[0].overrides_write = true;
+        if let Some(viol) = c13_first_answer(&faulted, &f, &mut ev) {
+            ev.violation = Some(viol);
+            ev.violating_case = Some(faulted);
+            ev.nontrivial = true;
+            return ev;
+        }
+        if ev.harness_error.is_some() {
+            return ev;
         }
     }
     for f in plans {
